@@ -1,8 +1,9 @@
 (* Correspondence check for C18: histories of create / update / delete / rename on the
-   real filer.Filer (+ FilerServer.AtomicRenameEntry) over an embedded store; after EVERY
-   operation the harness dumps the whole store and the error class. *)
+   real filer.Filer (+ FilerServer.UpdateEntry / AtomicRenameEntry) over an embedded store; after
+   EVERY operation the harness dumps the whole store and the error class.  Renames are given as the
+   RAW request strings (directories not necessarily clean, names not necessarily plain). *)
 From Coq Require Import List NArith Bool String.
-From SW Require Export base.Verdict model.FilerNS.
+From SW Require Export base.Verdict model.FilerNS model.FilerNSRaw.
 Import ListNotations.
 
 (* short forms used by the harness printer *)
@@ -10,9 +11,15 @@ Definition na : name := "a"%string.
 Definition nb : name := "b"%string.
 Definition F (perm uid : N) (chunks : list N) : entry := mk_entry false perm uid chunks [] 0%N [].
 Definition D (perm uid : N) : entry := mk_entry true perm uid [] [] 0%N [].
+(* with extended attributes *)
+Definition FX (perm uid : N) (chunks : list N) (ext : list (string * list N)) : entry :=
+  mk_entry false perm uid chunks [] 0%N ext.
+Definition DX (perm uid : N) (ext : list (string * list N)) : entry := mk_entry true perm uid [] [] 0%N ext.
+Definition P (o : op) : xop := Plain o.
+Definition RR (od on nd nn : string) : xop := RenameRaw od on nd nn.
 
 Record case := {
-  ops : list op;
+  ops : list xop;
   impl : list (store * err)     (* the implementation's store dump and error class after every op *)
 }.
 
@@ -33,40 +40,60 @@ Definition no_flip (s s' : store) : bool :=
                      | None => true
                      end) s.
 
+(* the normalised (source, target) of a rename that got past the request checks *)
+Definition rename_paths (x : xop) : option (path * path) :=
+  match x with
+  | Plain (Rename od on nd nn) => Some (child od on, child nd nn)
+  | RenameRaw od on nd nn => Some (child (clean_dir od) on, child (clean_dir nd) nn)
+  | _ => None
+  end.
+
 (* the property oracle for one step, on the implementation's observables only:
    s = its store before, (s', r) = its store and error class after *)
-Definition step_ok (s : store) (o : op) (s' : store) (r : err) : bool :=
+Definition step_ok (s : store) (x : xop) (s' : store) (r : err) : bool :=
   wf_b s' && no_flip s s' &&
-  match ref_step s o with
+  match xref_step s x with
   | Some (se, re) => store_equiv_b se s' && err_eqb re r
   | None =>
       (* a directory renamed onto a non-empty directory: the reference only demands
          all (the subtree laid over the target) or nothing *)
-      match o with
-      | Rename od on nd nn =>
+      match rename_paths x with
+      | Some (oldp, newp) =>
           if is_err r then store_equiv_b s s'
-          else match find s (child od on) with
-               | Some eo => store_equiv_b (ref_move s (child od on) (child nd nn) eo) s'
+          else match find s oldp with
+               | Some eo => store_equiv_b (ref_move s oldp newp eo) s'
                | None => false
                end
-      | _ => false
+      | None => false
       end
   end.
 
-Fixpoint oracle (s : store) (os : list op) (im : list (store * err)) : bool :=
+(* the steps at which the oracle fails, each with the implementation's store BEFORE the step *)
+Fixpoint failing (s : store) (os : list xop) (im : list (store * err)) : option (list (store * xop)) :=
   match os, im with
-  | [], [] => true
-  | o :: os', (s', r) :: im' => step_ok s o s' r && oracle s' os' im'
-  | _, _ => false
+  | [], [] => Some []
+  | o :: os', (s', r) :: im' =>
+      match failing s' os' im' with
+      | Some l => Some (if step_ok s o s' r then l else (s, o) :: l)
+      | None => None
+      end
+  | _, _ => None
   end.
 
 Definition last_store (im : list (store * err)) : store :=
   match rev im with (s, _) :: _ => s | [] => [] end.
 
+(* the property holds when no step fails; the case is inside known finding 0 only when EVERY
+   failing step is a rename inside the narrow trigger, evaluated on the implementation's own
+   store before that step (so another violation in the same history is not hidden) *)
 Definition check (c : case) : outcome :=
-  {| o_corr := all2 same_obs (run [] (ops c)) (impl c);
-     o_prop := oracle [] (ops c) (impl c);
-     o_trig := if history_trigger [] (ops c) then Some 0%N else None;
+  let fl := failing [] (ops c) (impl c) in
+  {| o_corr := all2 same_obs (xrun [] (ops c)) (impl c);
+     o_prop := match fl with Some [] => true | _ => false end;
+     o_trig := match fl with
+               | Some (f :: l) => if forallb (fun so => xop_trigger (fst so) (snd so)) (f :: l) then Some 0%N else None
+               | _ => None
+               end;
      o_nontrivial := existsb (fun sr => negb (is_err (snd sr))) (impl c) &&
                      negb (match last_store (impl c) with [] => true | _ => false end) |}.
 
